@@ -986,6 +986,15 @@ class Z3Ctx:
         self.axioms_used[name] = self.axioms_used.get(name, 0) + 1
 
 
+ABSTRACT_FLOOR = [False]  # floor(e) as a fresh real f with e-1 < f <= e (sound over-approximation for unsat)
+
+
+def set_abstract_floor(flag: bool):
+    if ABSTRACT_FLOOR[0] != flag:
+        ABSTRACT_FLOOR[0] = flag
+        _Z3.clear()
+
+
 RELAX_INTS = [True]  # int variables as reals (sound for universal claims; sat models are re-checked with Ints)
 
 
@@ -1042,7 +1051,10 @@ def to_z3(t: T, ctx: Z3Ctx):
         elif op == "or":
             z = z3.Or(a)
         elif op == "floor":
-            z = z3.ToReal(z3.ToInt(a[0]))
+            if ABSTRACT_FLOOR[0]:
+                z = z3.Real(f"floor!{n._h & 0xFFFFFFFFFFFF:x}")
+            else:
+                z = z3.ToReal(z3.ToInt(a[0]))
         elif op == "fn":
             name = n.args[0]
             if name == "sqrt":
@@ -1062,6 +1074,13 @@ def _replay_side(t: T, ctx: Z3Ctx):
     import z3
 
     for n in postorder([t]):
+        if n.op == "floor" and ABSTRACT_FLOOR[0] and n not in ctx._fn_seen:
+            ctx._fn_seen.add(n)
+            z = _Z3[n]
+            x = _Z3[kids(n)[0]]
+            ctx.side += [x - 1 < z, z <= x]
+            ctx.note("floor abstraction: x-1 < floor(x) <= x")
+            continue
         if n.op != "fn" or n in ctx._fn_seen:
             continue
         ctx._fn_seen.add(n)
